@@ -9,6 +9,7 @@ import (
 	"strings"
 	"sync"
 	"sync/atomic"
+	"syscall"
 	"testing"
 	"time"
 
@@ -331,21 +332,32 @@ var (
 	e1WatchTick int64
 )
 
+func e1CPU() time.Duration {
+	var ru syscall.Rusage
+	if syscall.Getrusage(syscall.RUSAGE_SELF, &ru) != nil {
+		return 0
+	}
+	return time.Duration(ru.Utime.Nano() + ru.Stime.Nano())
+}
+
+// The criterion is processor time, not wall-clock time: an operation is reported when the process has
+// burnt 30 s of CPU while the operation counter stood still. (A wall-clock bound of 40 s fired twice on a
+// machine that was oversubscribed about sevenfold and short of memory; neither case reproduced.)
 func e1WatchStart(prop string) {
 	go func() {
-		last, lastAt := int64(-1), time.Now()
+		last, lastCPU := int64(-1), e1CPU()
 		for {
 			time.Sleep(time.Second)
 			tk := atomic.LoadInt64(&e1WatchTick)
 			if tk != last {
-				last, lastAt = tk, time.Now()
+				last, lastCPU = tk, e1CPU()
 				continue
 			}
-			if tk > 0 && time.Since(lastAt) > 40*time.Second {
+			if burnt := e1CPU() - lastCPU; tk > 0 && burnt > 30*time.Second {
 				e1WatchMu.Lock()
 				c := e1Case{Prop: prop, Cap: e1WatchCap, Ops: append([]e1Op(nil), e1WatchOps...)}
 				e1WatchMu.Unlock()
-				vReport(vViolation{Property: prop, Slot: "hang:" + prop, Signature: "operation-does-not-terminate", Message: fmt.Sprintf("an operation did not return within 40 s (the last of %d operations of the case)", len(c.Ops)), Replay: c})
+				vReport(vViolation{Property: prop, Slot: "hang:" + prop, Signature: "operation-does-not-terminate", Message: fmt.Sprintf("an operation used %v of processor time without returning (the last of %d operations of the case)", burnt.Round(time.Second), len(c.Ops)), Replay: c})
 				fmt.Println("operation does not terminate; case written to violations.json")
 				os.Exit(1)
 			}
